@@ -324,22 +324,40 @@ def rule_r3(ctx):
                   construct=f"type class {k} unhandled")
     for fn in ("deserialize_type_proto_for_type", "deserialize_type_proto_for_shape"):
         f = repo.func(f"{SERDE}:{fn}")
-        cases = {n.test.args[0].value for n in own_nodes(f.node) if isinstance(n, ast.If) and isinstance(n.test, ast.Call)
-                 and isinstance(n.test.func, ast.Attribute) and n.test.func.attr == "HasField" and n.test.args}  # fmt: skip
+        cases = _hasfield_cases(f)
         for cls, oneof in sorted(oneof_written.items()):
             ctx.check("R3", f"{fn} handles oneof case {oneof} (written for {cls})", oneof in cases, f, f.node,
                       f"the type writer emits {oneof} for {cls} but {fn} has no branch for it",
                       how="HasField cases vs oneof fields written", construct=f"{fn} lacks {oneof}")
     a = repo.func(f"{SERDE}:deserialize_type_proto_for_type")
     b = repo.func(f"{SERDE}:deserialize_type_proto_for_shape")
-    ca = {n.test.args[0].value for n in own_nodes(a.node) if isinstance(n, ast.If) and isinstance(n.test, ast.Call) and getattr(n.test.func, "attr", "") == "HasField"}
-    cb = {n.test.args[0].value for n in own_nodes(b.node) if isinstance(n, ast.If) and isinstance(n.test, ast.Call) and getattr(n.test.func, "attr", "") == "HasField"}
+    ca, cb = _hasfield_cases(a), _hasfield_cases(b)
     ctx.check("R3", "type and shape readers handle the same oneof cases", ca == cb, b, b.node, f"cases differ: {sorted(ca ^ cb)}",
               how="sibling agreement", construct=f"type/shape reader cases differ {sorted(ca ^ cb)}")
     n = 0
     for f, node, ok, detail, label in s1_sites(repo, {SERDE}):
         n += 1
         ctx.check("R3", f"S1 {f.local}: {label}"[:150], ok, f, node, detail, how="GRAPH/GRAPHS sibling agreement", construct=f"S1 {label}")
+
+
+def _hasfield_cases(f) -> set[str]:
+    """Field names a function tests with `<proto>.HasField(…)` in an if: constants, and the elements of a literal tuple a loop
+    variable ranges over (`for field in ("tensor_type", "sparse_tensor_type"): if proto.HasField(field): …`)."""
+    out: set[str] = set()
+    for n in own_nodes(f.node):
+        if not (isinstance(n, ast.If) and isinstance(n.test, ast.Call) and isinstance(n.test.func, ast.Attribute) and n.test.func.attr == "HasField" and n.test.args):
+            continue
+        a = n.test.args[0]
+        if isinstance(a, ast.Constant) and isinstance(a.value, str):
+            out.add(a.value)
+        elif isinstance(a, ast.Name):
+            p_ = getattr(n, "_parent", None)
+            while p_ is not None and p_ is not f.node:
+                if isinstance(p_, ast.For) and isinstance(p_.target, ast.Name) and p_.target.id == a.id and isinstance(p_.iter, (ast.Tuple, ast.List, ast.Set)):
+                    out |= {e.value for e in p_.iter.elts if isinstance(e, ast.Constant) and isinstance(e.value, str)}
+                    break
+                p_ = getattr(p_, "_parent", None)
+    return out
 
 
 def rule_r4(ctx, rule="R4"):
@@ -945,10 +963,17 @@ def _onnx_external_keys(ctx) -> set[str]:
 def rule_r15(ctx):
     keys = _onnx_external_keys(ctx)
     ctx.tables["external_data keys (onnx)"] = sorted(keys)
-    rd = ctx.repo.func(f"{SERDE}:deserialize_tensor")
-    views = {n.targets[0].id for n in own_nodes(rd.node) if isinstance(n, ast.Assign) and isinstance(n.targets[0], ast.Name)
+    # the reader: whichever deserialize function takes the ExternalDataInfo view of the tensor
+    rd, views = None, set()
+    for g in reader_funcs(ctx):
+        if isinstance(g.node, ast.Lambda):
+            continue
+        v = {n.targets[0].id for n in own_nodes(g.node) if isinstance(n, ast.Assign) and isinstance(n.targets[0], ast.Name)
              and isinstance(n.value, ast.Call) and (dotted_of(n.value.func) or "").endswith("ExternalDataInfo")}
-    ctx.require(bool(views), "deserialize_tensor: ExternalDataInfo view not found")
+        if v:
+            rd, views = g, v
+            break
+    ctx.require(rd is not None, "deserializer: ExternalDataInfo view of an external tensor not found")
     read = {x.attr for x in own_nodes(rd.node) if isinstance(x, ast.Attribute) and isinstance(x.value, ast.Name) and x.value.id in views}
     # the writer: constant keys stored into entries added to <proto>.external_data
     written: set[str] = set()
@@ -994,9 +1019,10 @@ def rule_r15(ctx):
         ok = k in read and k in written
         where = rd if k not in read else wsite
         ctx.check("R15", f"external_data key `{k}` is read by the deserializer and written by the serializer", ok, where, where.node,
-                  f"the key `{k}` of an external-data record is {'not read by deserialize_tensor' if k not in read else 'not written by the serializer'}: "
+                  f"the key `{k}` of an external-data record is {'not read by the deserializer' if k not in read else 'not written by the serializer'}: "
                   f"a tensor stored with `{k}` comes back without it (proto -> IR -> proto loses a storage field)",
-                  how="keys of onnx's ExternalDataInfo ↔ attributes read off the view ↔ constant keys the serializer stores", construct=f"external_data key {k} dropped")
+                  how="keys of onnx's ExternalDataInfo ↔ attributes read off the view ↔ constant keys the serializer stores", construct=f"external_data key {k} dropped",
+                  symbol=f"{SERDE}:external_data record")
     for k in sorted((read | written) - keys):
         ctx.check("R15", f"external_data key `{k}` is known to onnx", False, wsite, wsite.node,
                   f"`{k}` is read or written as an external-data key but onnx does not accept it (it is ignored, with a warning, by ExternalDataInfo)",
